@@ -17,7 +17,8 @@ echo "without patch: demo exit $r1" >> "$out"; tail -3 /tmp/mut/c1.txt >> "$out"
 (cd "$wt" && go test -tags test -count=1 -run "$run" "./$pkg/" >/tmp/mut/c3.txt 2>&1); r3=$?
 echo "with patch: demo exit $r3" >> "$out"; grep -m3 -i "violat\|FAIL\|panic" /tmp/mut/c3.txt >> "$out"
 rm -f "$wt/$pkg"/*demo*_test.go
-for p in "$pkg" "$@"; do
+pkg_list="$pkg"; [ -n "$SKIP_PKG" ] && pkg_list=""
+for p in $pkg_list "$@"; do
   (cd "$wt" && go test -tags test -count=1 "./$p/" >/tmp/mut/c4.txt 2>&1); echo "with patch: existing tagged tests of $p exit $?" >> "$out"; tail -2 /tmp/mut/c4.txt >> "$out"
 done
 git -C /repo worktree remove --force "$wt"
